@@ -2,6 +2,7 @@ import Pendulum.Model.Native
 import Pendulum.Proofs.ZoneOps
 import Pendulum.Proofs.Zone4
 import Pendulum.Proofs.CalRT
+import Pendulum.Proofs.NativeDT
 /-! # C11 — DateTime, Date and Time are drop-in replacements for the native classes
 
 The inherited accessors are literally the native ones; the theorems are about the **overrides**
@@ -213,5 +214,241 @@ theorem acc_consistent (v : V) :
   refine ⟨by omega, by omega, trivial, by omega, by omega⟩
 
 example : (acc ⟨.fixed 3600000000, 0, false⟩).weekday = 3 ∧ (acc ⟨.fixed 3600000000, 0, false⟩).utcTod = 82800000000 := by decide
+
+/-! ### `Date` overrides: `fromordinal`, `replace`, `__sub__(date)` -/
+
+/-- `Date.fromordinal(n)` answers what `date.fromordinal(n)` answers — the same date, or ValueError alike — as a pendulum `Date` -/
+theorem date_fromordinal_native (n : Int) :
+    pFromOrdinal n = (match nFromOrdinal n with | .ok r => .ok (Ty.pDate, r) | .error e => .error e) := by
+  unfold pFromOrdinal
+  cases h : nFromOrdinal n with
+  | error e => rfl
+  | ok k =>
+    have hk : 1 ≤ k ∧ k ≤ maxOrd := by
+      unfold nFromOrdinal at h; split at h
+      · rename_i hc; cases h; exact hc
+      · cases h
+    simp only [mkDate_ord2ymd k hk]
+
+theorem date_fromordinal_ok (n : Int) (h : 1 ≤ n ∧ n ≤ maxOrd) : pFromOrdinal n = .ok (.pDate, n) := by
+  rw [date_fromordinal_native]; unfold nFromOrdinal; rw [if_pos h]
+
+example : pFromOrdinal 737484 = .ok (.pDate, 737484) ∧ pFromOrdinal 0 = .error .valueError ∧
+    pFromOrdinal 3652060 = .error .valueError := by decide
+
+/-- `Date.replace` = `date.replace` (same defaults, same range checks), class `Date` -/
+theorem date_replace_native (n : Int) (y m d : Option Int) :
+    pDateReplace n y m d = (match nDateReplace n y m d with | .ok r => .ok (Ty.pDate, r) | .error e => .error e) := by
+  unfold pDateReplace nDateReplace
+  generalize mkDate _ _ _ = r
+  cases r <;> rfl
+
+/-- … and the result has exactly the requested fields, the others unchanged, inside the representable range -/
+theorem date_replace_fields (n : Int) (y m d : Option Int) (ty : Ty) (r : Int)
+    (h : pDateReplace n y m d = .ok (ty, r)) :
+    ty = .pDate ∧ ord2ymd r = (y.getD (ord2ymd n).1, m.getD (ord2ymd n).2.1, d.getD (ord2ymd n).2.2) ∧
+      1 ≤ r ∧ r ≤ maxOrd := by
+  unfold pDateReplace at h
+  split at h
+  · cases h
+  · rename_i r' hr
+    simp only [Except.ok.injEq, Prod.mk.injEq] at h
+    obtain ⟨h1, h2⟩ := h
+    subst h2
+    obtain ⟨e, hy1, hy2, hv⟩ := mkDate_ok _ _ _ _ hr
+    refine ⟨h1.symm, ?_, ?_⟩
+    · rw [e]; exact ord2ymd_ymd2ord _ _ _ hv
+    · rw [e]; exact ymd2ord_range _ _ _ ⟨hy1, hy2⟩ hv
+
+/-- `replace()` without arguments is the identity on every representable date -/
+theorem date_replace_none (n : Int) (h : 1 ≤ n ∧ n ≤ maxOrd) : pDateReplace n none none none = .ok (.pDate, n) := by
+  unfold pDateReplace
+  simp only [Option.getD_none, mkDate_ord2ymd n h]
+
+/-- 2020-02-29 (ordinal 737484): `replace(day=30)` and `replace(year=2021)` raise, `replace(year=2024)` is 2024-02-29 -/
+example : pDateReplace 737484 none none (some 30) = .error .valueError ∧
+    pDateReplace 737484 (some 2021) none none = .error .valueError ∧
+    pDateReplace 737484 (some 2024) none none = .ok (.pDate, 737484 + 1461) := by decide
+
+/-- `Date - date` is an `Interval` whose `timedelta` value is `date - date`'s -/
+theorem date_sub_native (a b : Int) (hb : 1 ≤ b ∧ b ≤ maxOrd) : pDateSub a b = .ok (.pInterval, nDateSub a b) := by
+  unfold pDateSub nDateSub
+  simp only [mkDate_ord2ymd b hb]
+
+example : pDateSub 737484 737425 = .ok (.pInterval, 59 * 86400000000) := by decide
+
+/-! ### `Time` overrides: `replace`, `__sub__(time)`, `__rsub__` -/
+
+/-- `Time.replace` answers what `time.replace` answers — time of day, tzinfo object, ValueError alike — as a pendulum
+    `Time`; only the `fold` attribute (which selects nothing on a `time`) is reset instead of kept -/
+theorem time_replace_native (t : TV) (h m s us : Option Int) (tz : TzArg) (fold : Option Bool) :
+    pTimeReplace t h m s us tz fold =
+      (match nTimeReplace t h m s us tz fold with
+       | .ok r => .ok (Ty.pTime, { r with fold := false })
+       | .error e => .error e) := by
+  unfold pTimeReplace nTimeReplace
+  simp only
+  cases hm : mkTod (h.getD (TimeOfDay.fields t.tod).1) (m.getD (TimeOfDay.fields t.tod).2.1)
+      (s.getD (TimeOfDay.fields t.tod).2.2.1) (us.getD (TimeOfDay.fields t.tod).2.2.2) with
+  | error e => rfl
+  | ok tod =>
+    obtain ⟨_, h0, h1, _⟩ := mkTod_ok _ _ _ _ _ hm
+    simp only [tod_fields tod ⟨h0, h1⟩]
+
+/-- the result has exactly the requested fields, the others unchanged, and the requested tzinfo object -/
+theorem time_replace_fields (t : TV) (h m s us : Option Int) (tz : TzArg) (fold : Option Bool) (ty : Ty) (r : TV)
+    (e : pTimeReplace t h m s us tz fold = .ok (ty, r)) :
+    ty = .pTime ∧ r.tz = tz.apply t.tz ∧ r.fold = false ∧ 0 ≤ r.tod ∧ r.tod < Native.DAY ∧
+      TimeOfDay.fields r.tod = (h.getD (TimeOfDay.fields t.tod).1, m.getD (TimeOfDay.fields t.tod).2.1,
+        s.getD (TimeOfDay.fields t.tod).2.2.1, us.getD (TimeOfDay.fields t.tod).2.2.2) := by
+  rw [time_replace_native] at e
+  unfold nTimeReplace at e
+  simp only at e
+  split at e
+  · rename_i r' hr
+    split at hr
+    · cases hr
+    · rename_i tod hm
+      simp only [Except.ok.injEq] at hr
+      simp only [Except.ok.injEq, Prod.mk.injEq] at e
+      obtain ⟨e1, e2⟩ := e
+      subst hr; subst e2
+      obtain ⟨_, h0, h1, hf⟩ := mkTod_ok _ _ _ _ _ hm
+      exact ⟨e1.symm, rfl, rfl, h0, h1, hf⟩
+  · cases e
+
+/-- `replace()` without arguments keeps time of day and tzinfo -/
+theorem time_replace_none (t : TV) (ht : 0 ≤ t.tod ∧ t.tod < Native.DAY) :
+    pTimeReplace t none none none none .keep none = .ok (.pTime, ⟨t.tod, t.tz, false⟩) := by
+  rw [time_replace_native]
+  unfold nTimeReplace
+  simp only [Option.getD_none, tod_fields t.tod ht, TzArg.apply]
+
+example : pTimeReplace ⟨9000000005, some 1, true⟩ (some 3) none none (some 7) .keep (some true) =
+    .ok (.pTime, ⟨3 * 3600000000 + 30 * 60000000 + 7, some 1, false⟩) := by decide
+example : pTimeReplace ⟨9000000005, some 1, true⟩ (some 24) none none none .keep none = .error .valueError ∧
+    pTimeReplace ⟨5, some 1, false⟩ none none none none (.set 2) none = .ok (.pTime, ⟨5, some 2, false⟩) := by decide
+
+/-- `time - time` does not exist natively; the native way to subtract two times is to put them on one day.
+    `Time.__sub__` with a naive operand answers exactly that `datetime` difference (for *any* day), as a `Duration` -/
+theorem time_sub_via_combine (a b : TV) (hb : b.tz = none) (ord : Int) (fa fb : Bool) :
+    pTimeSub a b = .ok (.pDuration, Native.sub true (nCombine ord a.tod .naive fa none) (nCombine ord b.tod .naive fb none)) ∧
+    pTimeSub a b = .ok (.pDuration, a.tod - b.tod) := by
+  have e : TimeOfDay.sub a.tod b.tod = a.tod - b.tod := by
+    unfold TimeOfDay.sub TimeOfDay.diff TimeOfDay.fields
+    simp only [Bool.false_eq_true, if_false]; omega
+  unfold pTimeSub
+  simp only [hb, Option.isSome_none, Bool.false_eq_true, if_false, e]
+  have e2 : Native.sub true (nCombine ord a.tod .naive fa none) (nCombine ord b.tod .naive fb none) = a.tod - b.tod := by
+    unfold Native.sub nCombine wallOf
+    simp only [if_true]; omega
+  rw [e2]; simp
+
+/-- a native `time` on the left (`__rsub__`): the mirrored difference -/
+theorem time_rsub_naive (self other : TV) (hs : self.tz = none) (ho : other.tz = none) :
+    pTimeRsub self other = .ok (.pDuration, other.tod - self.tod) := by
+  unfold pTimeRsub
+  simp only [ho, Option.isSome_none, Bool.false_eq_true, if_false]
+  exact (time_sub_via_combine ⟨other.tod, none, false⟩ self hs 1 false false).2
+
+/-- an aware operand is refused with TypeError (what the native class answers for every `time - time`) -/
+theorem time_sub_aware_typeerror (a b : TV) (k : Nat) :
+    (b.tz = some k → pTimeSub a b = .error .typeError) ∧ (b.tz = some k → pTimeRsub a b = .error .typeError) ∧
+      (a.tz = some k → b.tz = none → pTimeRsub a b = .error .typeError) := by
+  refine ⟨fun h => ?_, fun h => ?_, fun h h' => ?_⟩
+  · unfold pTimeSub; simp [h]
+  · unfold pTimeRsub; simp [h]
+  · unfold pTimeRsub pTimeSub; simp [h, h']
+
+example : pTimeSub ⟨18000000001, none, false⟩ ⟨9000000000, none, false⟩ = .ok (.pDuration, 9000000001) ∧
+    pTimeSub ⟨5, none, false⟩ ⟨9000000000, some 1, false⟩ = .error .typeError ∧
+    pTimeRsub ⟨5, none, false⟩ ⟨9000000000, none, false⟩ = .ok (.pDuration, 8999999995) := by decide
+
+/-! ### `DateTime.date()`, `time()`, `timetz()`, `combine` -/
+
+/-- `date()` is the pendulum `Date` with the ordinal `toordinal()` reports (= the native `date()`) -/
+theorem date_of_native (v : V) (h : inRange v.w = true) : pDateOf v = .ok (.pDate, (acc v).ordinal) := by
+  have hr : 1 ≤ v.w / AddDur.DAY + epochOrd ∧ v.w / AddDur.DAY + epochOrd ≤ maxOrd := by
+    unfold inRange AddDur.minWall AddDur.maxWall at h
+    simp only [Bool.and_eq_true, decide_eq_true_eq] at h
+    unfold AddDur.DAY epochOrd maxOrd at *; omega
+  unfold pDateOf AddDur.wallToFields
+  simp only [mkDate_ord2ymd _ hr]
+  rfl
+
+/-- `time()` is the pendulum `Time` with the native time of day and no tzinfo; `timetz()` the one that also carries the
+    value's own tzinfo object and fold — for every value, no side condition -/
+theorem time_of_native (v : V) (k : Option Nat) :
+    pTimeOf v = .ok (.pTime, { nTimeOf v with fold := false }) ∧ pTimetzOf v k = .ok (.pTime, nTimetzOf v k) := by
+  have ht : 0 ≤ v.w % Native.DAY ∧ v.w % Native.DAY < Native.DAY := by unfold Native.DAY; omega
+  unfold pTimeOf pTimetzOf nTimeOf nTimetzOf
+  simp only [tod_fields _ ht]
+  simp
+
+example : pTimeOf ⟨.fixed 3600000000, 86400000000 + 9000000005, true⟩ = .ok (.pTime, ⟨9000000005, none, false⟩) ∧
+    pTimetzOf ⟨.fixed 3600000000, 86400000000 + 9000000005, true⟩ (some 1) = .ok (.pTime, ⟨9000000005, some 1, true⟩) ∧
+    pDateOf ⟨.fixed 3600000000, 86400000000 + 9000000005, true⟩ = .ok (.pDate, 719164) := by decide
+
+/-- `combine(date, naive time)` = `datetime.combine`: the fields and the time's fold, naive -/
+theorem combine_naive (ord tod : Int) (f : Bool) :
+    pCombine ord tod .naive f .naive = .ok (.pDateTime, nCombine ord tod .naive f none) := rfl
+
+/-- `combine` with the tzinfo coming from the time (default argument) or from the argument (naive time), on a wall time
+    that exists in the zone: exactly `datetime.combine`'s fields, tzinfo and fold; only skipped wall times are normalised (C02) -/
+theorem combine_regular (ord tod : Int) (f : Bool) (z : Z)
+    (hns : ¬ z.woff true (wallOf ord tod) > z.woff false (wallOf ord tod)) (hr : inRange (wallOf ord tod) = true) :
+    pCombine ord tod (.named z) f .naive = .ok (.pDateTime, nCombine ord tod (.named z) f none) ∧
+    pCombine ord tod .naive f (.named z) = .ok (.pDateTime, nCombine ord tod .naive f (some (.named z))) := by
+  have hc : create (.named z) (wallOf ord tod) f false = .ok ⟨.named z, wallOf ord tod, f⟩ := by
+    unfold create
+    simp only [convertNaive, hns, if_false, Bool.false_eq_true, and_false, hr, if_true]
+  constructor
+  · unfold pCombine
+    simp only [instanceAware_self, hc]; rfl
+  · unfold pCombine
+    simp only [hc]; rfl
+
+/-- fixed offsets: the same fields and offset; the (meaningless) fold is 0 -/
+theorem combine_fixed (ord tod off : Int) (f : Bool) :
+    pCombine ord tod (.fixed off) f .naive = .ok (.pDateTime, ⟨.fixed off, wallOf ord tod, false⟩) ∧
+    pCombine ord tod .naive f (.fixed off) = .ok (.pDateTime, ⟨.fixed off, wallOf ord tod, false⟩) := by
+  constructor
+  · unfold pCombine; simp only [instanceAware_self]; rfl
+  · rfl
+
+/-- `DateTime.combine(x.date(), x.timetz())` is `x.replace()`: the value itself unless its wall time is skipped -/
+theorem combine_parts_eq_replace (v : V) :
+    pCombine (acc v).ordinal (nTimetzOf v none).tod v.z v.fold .naive =
+      (match Native.replace v v.w v.fold with | .ok r => .ok (Ty.pDateTime, r) | .error e => .error e) := by
+  have hw : wallOf (acc v).ordinal (nTimetzOf v none).tod = v.w := by
+    unfold wallOf acc nTimetzOf Native.DAY epochOrd; simp only; omega
+  unfold pCombine Native.replace
+  rw [hw]
+  cases hz : v.z with
+  | naive => rfl
+  | fixed o =>
+    simp only [instanceAware_self]
+    generalize create _ _ _ _ = r
+    cases r <;> rfl
+  | named z =>
+    simp only [instanceAware_self]
+    generalize create _ _ _ _ = r
+    cases r <;> rfl
+
+/-- an explicit `tzinfo=` argument is ignored when the time is aware (`instance()`: `tz = dt.tzinfo or tz`);
+    `datetime.combine` would use the argument — outside what C11 states (class of the result), recorded here -/
+theorem combine_tzarg_only_for_naive_time (ord tod : Int) (tz arg : ZRef) (f : Bool) (h : tz ≠ .naive) :
+    pCombine ord tod tz f arg = pCombine ord tod tz f .naive := by
+  unfold pCombine
+  cases tz with
+  | naive => exact absurd rfl h
+  | fixed o => rfl
+  | named z => rfl
+
+/-- first pass of the repeated wall 5000 in `zOverlap` stays the first pass, second stays second -/
+example : (match pCombine epochOrd 5000 (.named zOverlap) false .naive with
+     | .ok (ty, r) => decide (ty = .pDateTime ∧ r.w = 5000 ∧ r.instant = -2200 ∧ r.fold = false) | .error _ => false) = true ∧
+    (match pCombine epochOrd 5000 (.named zOverlap) true .naive with
+     | .ok (_, r) => decide (r.w = 5000 ∧ r.instant = 1400 ∧ r.fold = true) | .error _ => false) = true := by decide
 
 end Pendulum.Props.C11
